@@ -8,6 +8,7 @@ Open Scope Z_scope.
 (* structure of the composite, for every level, seed parameters, configuration and reply schedule:
    - seed exchange not successful (negative, invalid, mismatching, timeout, suppressed): nothing more happens;
    - all-zero seed: nothing more happens, the seed response is returned;
+   - an algorithm that fails (raises its own exception): exactly one algorithm call, that error, nothing more is sent;
    - otherwise: exactly one algorithm call on exactly the received seed, then send_key with its result *)
 Theorem C13_structure : forall cfg st level params now s,
   0 < algo cfg ->
@@ -17,6 +18,7 @@ Theorem C13_structure : forall cfg st level params now s,
   | COk (Some (r, sd)) =>
     let seed := seed_of sd in
     if negb (Nat.eqb (List.length seed) 0) && all_zero seed then tr = tr1 /\ res = res1
+    else if algo_fails cfg then tr = tr1 ++ [snd (algo_run cfg seed level)] /\ res = CErr ERuntime None
     else
       let '(res2, _, _, _, tr2) := send_key cfg st1 level (fst (algo_run cfg seed level)) t1 s1 in
       tr = tr1 ++ snd (algo_run cfg seed level) :: tr2 /\ res = res2
